@@ -254,6 +254,9 @@ def roundtrip_check(rng, n, dist, bad):
             raised = None
         except (ValueError, OverflowError) as ex:      # numbers of several hundred digits (see NOTES.md)
             back, raised = None, type(ex).__name__
+        import math
+        if back is not None and any(isinstance(p, float) and math.isinf(p) for p in back._string):
+            back, raised = None, "infinite-float"     # a decimal beyond the float range reads as infinity (shown as 'inf' since the repair)
         same = back is not None and c_svs(back) == c_svs(x)
         dist["roundtrip/sepOK=%s/%s" % (sep_ok, "read-back" if same else (raised or "read-differently"))] += 1
         if raised is not None and len(printed) > 300:
